@@ -218,7 +218,7 @@ def handleCore (cli : Bool) (op : String) (f : List String) : Verdict :=
       let valid := t.uniqueTips && !(t.tipNames.contains "") && !(groups.flatten.contains "")
       let (mt, merr) := insertIdentical (flag idx) t groups
       let oneOld := groups.all fun g => (g.filter t.tipNames.contains).length == 1
-      let tags := tagIf valid "uniq" ++ shapeTags t ++ tagIf (flag idx) "indexed" ++ tagIf oneOld "one-existing-each" ++ tagIf (nondegB t) "nondeg" ++
+      let tags := tagIf valid "uniq" ++ shapeTags t ++ tagIf (flag idx) "indexed" ++ tagIf oneOld "one-existing-each" ++ tagIf (nondegB t) "nondeg" ++ tagIf (dupInnerLabels t) "dup-inner-labels" ++
         tagIf (groups.any (·.length ≥ 3)) "group>=3" ++
         tagIf (t.splits.any fun s => s.tip && s.e.len == 0 && groups.flatten.contains (s.below.headD "")) "zero-tip-branch" ++
         tagIf (t.splits.any fun s => s.tip && s.e.len == NIL && groups.flatten.contains (s.below.headD "")) "absent-tip-branch"
@@ -244,6 +244,11 @@ def handleCore (cli : Bool) (op : String) (f : List String) : Verdict :=
             else match merr with
               | none => tie cli (tagIf (after != t) "effective" ++ "ok" :: tags) mt after
               | some e => ⟨.tie, tags, "model rejects: " ++ e⟩
+          else if flag idx && groupsAcceptable t groups then
+            -- acceptable groups refused: a violation; the recorded one is the duplicate-inner-label refusal (F79)
+            ⟨.oracle, tags, (if dupInnerLabels t && (outcome.splitOn "NewNodeIndex").length ≥ 2 && (outcome.splitOn "several%20node%20with%20the%20same%20name").length ≥ 2
+                              then "class=InsertIdenticalDuplicateInnerLabels " else "") ++
+              "groups with exactly one existing member each were refused on a tree with unique tip names: " ++ outcome⟩
           else match merr with
             | some _ =>
               -- the insertions made before the failure stay: pre-existing distances still may not move
